@@ -432,7 +432,12 @@ class Color(NamedTuple):
                     f"expected three components in {original_color!r}"
                 )
             red, green, blue = components
-            triplet = ColorTriplet(int(red), int(green), int(blue))
+            try:
+                triplet = ColorTriplet(int(red), int(green), int(blue))
+            except ValueError:
+                raise ColorParseError(
+                    f"color components must be integers in {original_color!r}"
+                ) from None
             if not all(component <= 255 for component in triplet):
                 raise ColorParseError(
                     f"color components must be <= 255 in {original_color!r}"
